@@ -183,12 +183,48 @@ def tvColl : Coll → String
 
 abbrev St := State String
 
-def restConst : String := "NF=int:0 R0=nil X=str:73 G=="
+def restTail : String := "X=str:73 G=="
+def restConst : String := "NF=int:0 R0=str: " ++ restTail
 
 def initSt : St := { rstart := .nil, rlength := .nil, target := .nil, coll := .unset, rest := restConst }
 
 def dump (r : String) (s : St) : String :=
   s!"{r} T={tv s.target} C={tvColl s.coll} RS={tv s.rstart} RL={tv s.rlength} {s.rest}"
+
+
+/-- character classes: ASCII as in the C locale; Latin-1 letters for wide characters (what the generator uses) -/
+def classNat (wide : Bool) (name : String) (n : Nat) : Bool :=
+  let up := (65 ≤ n && n ≤ 90) || (wide && 0xC0 ≤ n && n ≤ 0xDE && n != 0xD7)
+  let lo := (97 ≤ n && n ≤ 122) || (wide && 0xDF ≤ n && n ≤ 0xFF && n != 0xF7)
+  let dg := 48 ≤ n && n ≤ 57
+  let al := up || lo
+  let sp := n == 32 || (9 ≤ n && n ≤ 13)
+  let pr := 32 ≤ n && n ≤ 126
+  match name with
+  | "alnum" => al || dg
+  | "alpha" => al
+  | "blank" => n == 32 || n == 9
+  | "cntrl" => n < 32 || n == 127
+  | "digit" => dg
+  | "graph" => (33 ≤ n && n ≤ 126) || (wide && al && n ≥ 128)
+  | "lower" => lo
+  | "print" => pr || (wide && al && n ≥ 128)
+  | "punct" => (33 ≤ n && n ≤ 126) && !(al || dg)
+  | "space" => sp
+  | "upper" => up
+  | "xdigit" => dg || (65 ≤ n && n ≤ 70) || (97 ≤ n && n ≤ 102)
+  | _ => false
+
+/-- encoding-name argument: absent, the name "utf8" (resolves to the runtime's cmgr) or any other string (unknown) -/
+def encOf : Arg → Option EncArg
+  | .absent => some .absent
+  | .v (.str n) => some (if n == "utf8".toList then .utf8 else .unknown)
+  | _ => none
+
+def optOut (r : Option Val) (s : State String) : Option (String × State String) :=
+  match r with
+  | some v => some (tv v, s)
+  | none => some ("unmodelled", s)
 
 def argVal : Arg → Option Val
   | .v x => some x
@@ -267,7 +303,57 @@ def runOp (E : Env) (s : St) (op : String) (args : List Arg) : Option (String ×
     match fnMatch E v p (some (st.getD (.int 1))) true s with
     | some (r, s') => pure (tv r, s')
     | none => pure ("unmodelled", s)
+  | "i:index", [a, b, c] => do
+    let v ← argVal a; let p ← argVal b; let st ← argOptVal c
+    optOut (fnIndexIc E false v p st) s
+  | "i:rindex", [a, b, c] => do
+    let v ← argVal a; let p ← argVal b; let st ← argOptVal c
+    optOut (fnIndexIc E true v p st) s
+  | "i:split", [a, b] => do
+    let v ← argVal a
+    match fnSplitIc E false v (argSep b) s with
+    | some (r, s') => pure (tv r, s')
+    | none => pure ("unmodelled", s)
+  | "i:splita", [a, b] => do
+    let v ← argVal a
+    match fnSplitIc E true v (argSep b) s with
+    | some (r, s') => pure (tv r, s')
+    | none => pure ("unmodelled", s)
+  | "trim", [a] => do let v ← argVal a; pure (tv (fnTrim E true true v), s)
+  | "ltrim", [a] => do let v ← argVal a; pure (tv (fnTrim E true false v), s)
+  | "rtrim", [a] => do let v ← argVal a; pure (tv (fnTrim E false true v), s)
+  | "normspace", [a] => do let v ← argVal a; pure (tv (fnNormspace E v), s)
+  | "trimf", [a, f] => do let v ← argVal a; let f ← argOptVal f; optOut (fnTrimFlags E v f) s
+  | "subchar", [a, b] => do let v ← argVal a; let p ← argVal b; optOut (fnSubchar E v p) s
+  | "tocharcode", [a, b] => do let v ← argVal a; let p ← argOptVal b; optOut (fnTocharcode E v p) s
+  | "tombs", [a, e] => do let v ← argVal a; let e ← encOf e; pure (tv (fnTombs E v e), s)
+  | "frommbs", [a, e] => do let v ← argVal a; let e ← encOf e; pure (tv (fnFrommbs E v e), s)
+  | "tonum", [a, b] => do let v ← argVal a; let b ← argOptVal b; optOut (fnTonum E v b) s
   | _, _ => none
+
+/-- ops with a variable number of arguments, a class name in the op, or the IGNORECASE prefix on an op whose
+    model does not depend on it (the case-insensitive regex answers are in the table) -/
+def runOp2 (E : Env) (s : St) (op : String) (args : List Arg) : Option (String × St) :=
+  if op == "fromcharcode" then do let vs ← args.mapM argVal; optOut (fnFromcharcode vs) s
+  else if op == "frombcharcode" then do let vs ← args.mapM argVal; optOut (fnFrombcharcode vs) s
+  else if op.startsWith "is:" then
+    match args with
+    | [a] => do
+      let v ← argVal a
+      let name := (op.drop 3).toString
+      pure (tv (fnIsClass E (fun c => classNat true name c.toNat) (fun b => classNat false name b.toNat) v), s)
+    | _ => none
+  else if op == "sub0" || op == "gsub0" then
+    match args with
+    | [p, r, .v (.str rec0)] => do
+      let p ← argPat p; let r ← argVal r
+      let (res, new, nf) := fnSubst0 E (if op == "sub0" then some 1 else none) p r rec0
+      -- the record is the target of this call only: the harness resets $0 afterwards
+      pure (tv res, { s with rest := s!"NF=int:{nf} R0={tv (.str new)} {restTail}" })
+    | _ => none
+  else match runOp E s op args with
+    | some r => some r
+    | none => if op.startsWith "i:" then runOp E s (op.drop 2).toString args else none
 
 def step (s : St) (line : String) : St × String :=
   let ws := words line
@@ -281,10 +367,11 @@ def step (s : St) (line : String) : St × String :=
       -- a lookup outside the table must be visible in the output: run twice with different defaults
       let e1 := mkEnv tbl false
       let e2 := mkEnv tbl true
-      match runOp e1 s op args, runOp e2 s op args with
+      match runOp2 e1 s op args, runOp2 e2 s op args with
       | some (r1, s1), some (r2, s2) =>
         let o1 := dump r1 s1
         let o2 := dump r2 s2
+        let s1 := { s1 with rest := restConst }
         if o1 == o2 then (s1, o1) else (s1, "NOENTRY " ++ o1)
       | _, _ => (s, "bad-op")
     | _, _ => (s, "bad-args")
